@@ -123,7 +123,7 @@ async def _mix(rng, cfg, specs, cut):
     import asyncio
     from ..pair import Pair
     p = Pair(rng, cfg)
-    p.driver.horizon = 30.0
+    p.driver.horizon = 1.0e5
     await p.start()
 
     async def cutter():
